@@ -14,8 +14,19 @@ def run(ctx):
         raise vlib.Infra("negative control failed")
     out = ctx.vh("managed-replay", {"cases": cases}, timeout=20000)
     ctx.add_result(out)
+    # the v1 / v1beta1 form: section records translated by the reader to rule lists (ManagedV1.tla)
+    res1 = ctx.tlc_must_hold("image", "ManagedV1", "ManagedV1.cfg", emit_tags=("CASE",),
+                             constants={"MaxRules": 2, "MaxSections": 2 if ctx.quick else 3, "Emit": "TRUE"}, timeout=20000, heap="16g")
+    cases1 = res1["emit"]["CASE"]
+    if len(cases1) != res1["distinct"]:
+        raise vlib.Infra("emission incomplete (v1): %d of %d" % (len(cases1), res1["distinct"]))
+    neg1 = ctx.vh("managed-replay", {"cases": cases1, "corrupt": True})
+    if not neg1["violations"]:
+        raise vlib.Infra("negative control failed (v1)")
+    ctx.add_result(ctx.vh("managed-replay", {"cases": cases1}, timeout=20000), kind="v1")
     ctx.assumptions += [
+        "v1 / v1beta1 form: every section record with <= 2 (3) sections present (booleans, default/except/override maps per module, per-file overrides incl. a directory and a prefix option next to its value option), rendered in two spellings, read by the real reader, used as read and after being written as v2 and read again",
         "one fixed image (two modules, four files incl. a well-known-type import, pre-set options, custom js_type, source info); the configuration space is enumerated, not the image space",
         "option value functions (java/go/csharp/ruby/objc naming) are uninterpreted terms rendered by the harness' own implementation",
     ]
-    return vlib.finish(ctx, rule="every managed configuration with <= 2 (quick) / 3 (thorough) ordered disable rules from a pool of 9 and <= 2 / 3 ordered override rules from a pool of 13, enabled and disabled; each through the v2 buf.gen.yaml reader and through the constructors; the whole image is compared with the image obtained from the specification's decisions; distinct = configurations")
+    return vlib.finish(ctx, rule="every managed configuration with <= 2 (quick) / 3 (thorough) ordered disable rules from a pool of 9 and <= 2 / 3 ordered override rules from a pool of 13, enabled and disabled; each through the v2 buf.gen.yaml reader and through the constructors; every v1 / v1beta1 section record of ManagedV1.tla through the v1 reader and through the v2 document written for it; the whole image is compared with the image obtained from the specification's decisions; distinct = configurations")
